@@ -125,17 +125,17 @@ def substDollarLoop (se : SubstEnv) : Nat → Str → Outcome (Option Str)
       | .panic s => .panic s
       | .diverge s => .diverge s
 
-/-- the embedded-backquote loop on one token (shell.rs:930-975): (item so far, last output, token) -/
-def substDotLoop (se : SubstEnv) : Nat → Str → Str → Str → Outcome Str
-  | 0, _, _, _ => .diverge "subst-dot-loop"
-  | f + 1, item, lastOut, tok =>
+/-- the embedded-backquote loop on one token (shell.rs): (item so far, rest of the token) -/
+def substDotLoop (se : SubstEnv) : Nat → Str → Str → Outcome Str
+  | 0, _, _ => .diverge "subst-dot-loop"
+  | f + 1, item, tok =>
     match matchBackquote tok with
     | none => .ok (item ++ tok)
     | some (h, body, tl) =>
       match runInner se f body with
       | .ok r =>
         let out := r.getD []
-        if tl = [] then .ok (item ++ h ++ out) else substDotLoop se f (item ++ h ++ out) out tl
+        if tl = [] then .ok (item ++ h ++ out) else substDotLoop se f (item ++ h ++ out) tl
       | .err k => .err k
       | .panic s => .panic s
       | .diverge s => .diverge s
@@ -155,7 +155,7 @@ def substDotGo (se : SubstEnv) : Nat → Nat → List Tok → Outcome (List (Nat
       match matchBackquote tok with
       | none => substDotGo se f (idx + 1) rest
       | some _ =>
-        (substDotLoop se f [] [] tok).bind (fun item =>
+        (substDotLoop se f [] tok).bind (fun item =>
           (substDotGo se f (idx + 1) rest).map (fun u => (idx, item) :: u))
     else substDotGo se f (idx + 1) rest
 
@@ -187,7 +187,7 @@ def doExpansion (se : SubstEnv) : Nat → List Tok → Outcome (List Tok)
       let t6 := match u2 with
         | none => t5
         | some u => applyUpdates t5 u
-      expandBraceRange t6)))
+      .ok (expandBraceRange t6))))
 where
   applyUpdates (ts : List Tok) (us : List (Nat × Str)) : List Tok :=
     us.foldl (fun acc (i, text) => match acc[i]? with
